@@ -130,7 +130,7 @@ def case_write_read(ctx, nlist):
     d = dict(TRICKY)
     a = ctx.int("scalar_int", 0, 10 ** 9)
     r = ctx.real("scalar_real", 0, 10 ** 6)
-    lst = [ctx.int(f"l{i}", 0, 10 ** 6) for i in range(nlist)]
+    lst = [ctx.int(f"l{i}", 0, 10 ** 9 - 1) for i in range(nlist)]
     d["nSavedChans"] = core._as_real(a)
     d["fileTimeSecs"] = r
     d["snsApLfSy"] = [core._as_real(x) for x in lst]
